@@ -671,3 +671,16 @@ def name_collisions(rng: random.Random, controls: int = 16) -> list:
     for s in ("operation", "enums_module_name", "include"):
         scen(s, "operations", group="plugin", plugin=True)
     return out
+
+
+def nested_composite_depth(defn) -> int:
+    """number of nested fields-with-sub-selection levels inside a definition (inline fragments are transparent)"""
+    def depth(ss):
+        best = 0
+        for sel in ss.selections:
+            if isinstance(sel, FieldNode) and sel.selection_set:
+                best = max(best, 1 + depth(sel.selection_set))
+            elif isinstance(sel, InlineFragmentNode):
+                best = max(best, depth(sel.selection_set))
+        return best
+    return depth(defn.selection_set)
